@@ -88,6 +88,11 @@ long sk_syscall(long nr, ...) {
 int sk_pthread_create(pthread_t *th, const pthread_attr_t *attr, void *(*fn)(void *), void *arg) {
     int ds = PTHREAD_CREATE_JOINABLE;
     if (attr) pthread_attr_getdetachstate(attr, &ds);
+    if (R->fail_create_at >= 0 && R->fail_create_at-- == 0) {
+        R->ctr.fault("pthread_create_fail");
+        tr("pthread_create_fail");
+        return EAGAIN;
+    }
     int tid = thread_create(fn, arg, ds == PTHREAD_CREATE_DETACHED, "lib");
     *th = (pthread_t)(tid + 1000);
     yield_point("pthread_create");
